@@ -114,10 +114,7 @@ func body(keep int) func(c *drv.Ctx) {
 // the previous one set in motion has settled. After a clean Close every rollback point offered is
 // exercised (see after).
 func bodyGatedFamily(conf map[string]interface{}, words []string, gated bool) func(c *drv.Ctx) {
-	menu := fgate.Menu() // quick: single gates; thorough: persister+merger pairs as well
-	if mc.Tier() == "thorough" {
-		menu = fgate.MenuPairs()
-	}
+	menu := fgate.Menu() // single gates (every rollback point of every execution is exercised: pairs are left to C04 / C12)
 	if !gated {
 		menu = menu[:1]
 	}
@@ -291,7 +288,7 @@ func after(c *drv.Ctx) {
 
 func Scenarios() []drv.Scenario {
 	d0 := []drv.Phase{{Bound: 0}}
-	words := lww.GatedWords(mc.Tier())
+	words := lww.Words("ubdxz", 2)
 	if mc.Tier() != "thorough" {
 		words = lww.Words("bdz", 2) // every rollback point of every execution is rolled back to and reopened: keep quick small
 	}
@@ -299,7 +296,7 @@ func Scenarios() []drv.Scenario {
 	if mc.Tier() == "thorough" {
 		plainWords = lww.Words(lww.FamilyAlphabet+"z", 3)
 	}
-	gdoc := "gated workload family: every word over the batch-shape alphabet x every member of the gate menu (single gates, persister+merger pairs) x numSnapshotsToKeep {2,10} (environment choices); after a clean Close EVERY rollback point offered is rolled back to on a copy, opened, compared with the model state its internal value names, written to and reopened"
+	gdoc := "gated workload family: every word over the batch-shape alphabet x every member of the gate menu (single gates) x numSnapshotsToKeep {2,10} (environment choices); after a clean Close EVERY rollback point offered is rolled back to on a copy, opened, compared with the model state its internal value names, written to and reopened"
 	return []drv.Scenario{
 		{Name: "sched:gated-family-unsafe-2-persister-workers", Doc: gdoc, After: after, Class: "sched", Quick: d0, Thorough: d0,
 			Body: bodyGatedFamily(map[string]interface{}{"unsafe_batch": true, "scorchPersisterOptions": map[string]interface{}{"NumPersisterWorkers": 2, "MaxSizeInMemoryMergePerWorker": 1}}, words, true)},
